@@ -476,6 +476,56 @@ def directed_f2(run: Run):
                  dict(graph=G.to_json(), ops=F2_OPS), observed=[list(o) for o in outs], kind="broken-correspondence")
 
 
+# ----------------------------------------------------------------------------- partial revert on (n, d1, ..) shaped values
+
+
+def shape_case(shape, mask):
+    """x -> y = 2x+1 -> z = sum(y) with per-individual values of `shape`; returns None or (signature, what, expected, observed)"""
+    import torch
+    from leaspy.variables.dag import VariablesDAG
+    from leaspy.variables.specs import DataVariable, LinkedVariable
+    from leaspy.variables.state import State, StateForkType
+    dag = VariablesDAG.from_dict({"x": DataVariable(), "y": LinkedVariable(lambda *, x: 2 * x + 1), "z": LinkedVariable(lambda *, y: y.sum())})
+    shape, n = tuple(shape), shape[0]
+    numel = 1
+    for d in shape:
+        numel *= d
+    old = torch.arange(numel, dtype=torch.float64).reshape(shape)
+    new = old * 10 + 7
+    st = State(dag, auto_fork_type=StateForkType.REF)
+    try:
+        st["x"] = old
+        st["y"], st["z"]
+        st["x"] = new
+        st["y"]
+        st.revert(torch.tensor([bool(m) for m in mask]))
+        got = dict(x=st["x"], y=st["y"], z=st["z"])
+    except Exception as e:  # noqa
+        return ("partial-revert:raises-on-nd-values", f"State.revert(mask) raised {type(e).__name__} on per-individual values of shape {shape}: {e}", None, None)
+    m = torch.tensor([bool(x) for x in mask]).reshape((n,) + (1,) * (len(shape) - 1))
+    exp_x = torch.where(m, old, new)
+    exp = dict(x=exp_x, y=2 * exp_x + 1, z=(2 * exp_x + 1).sum())
+    for k in ("x", "y", "z"):
+        if not T.same_tensor(got[k], exp[k]):
+            return ("partial-revert:wrong-rows-on-nd-values", f"after State.revert(mask) on values of shape {shape}, '{k}' is not (previous rows where "
+                    "rejected, proposed rows where accepted) / its value derived from that", str(exp[k])[:300], str(got[k])[:300])
+    return None
+
+
+def directed_shapes(run: Run):
+    """Per-individual values of the shapes the shipped models use ((n,), (n,1), (n,2), (n,2,3)), every mask for n = 3 with the default
+    right-broadcast.  Outside the Coq vocabulary (1-d values): implementation-side oracle only."""
+    n = 3
+    for shape in [(n,), (n, 1), (n, 2), (n, 2, 3)]:
+        for mask in itertools.product([True, False], repeat=n):
+            run.case(("shapes", shape, mask), nontrivial=True, validated=False)
+            run.count("directed_shapes", str(shape))
+            r = shape_case(shape, mask)
+            if r is not None:
+                run.fail(r[0], r[1], dict(shape=list(shape), mask=[int(m) for m in mask], graph="x -> y = 2x+1 -> z = sum(y)"), expected=r[2], observed=r[3])
+                return
+
+
 # ----------------------------------------------------------------------------- real sampler steps on real model states
 
 
@@ -626,6 +676,14 @@ class SamplerOracle:
         self.run.count("sampler_oracle", sig)
         self.run.fail(sig, what, dict(config=self.label, **meta), expected=expected, observed=observed)
 
+    def raised(self, meta, directed, e):
+        """A node function refusing an extreme DIRECTED proposal is not a rejection (outside the property: counted).  A sampler call
+        with its own proposals on the live state of a fit must complete: the steps before it left the state unusable."""
+        self.run.count("sampler_raised", f"{meta['sampler']}({'directed' if directed is not None else 'natural'}): {type(e).__name__}")
+        if directed is None:
+            self.fail("sampler:natural-step-raises", f"{meta['sampler']}.sample on '{meta['variable']}' raised {type(e).__name__}: {str(e)[:200]} "
+                      "on the live state of a fit (own proposals): an earlier accepted / rejected proposal left the state inconsistent", meta)
+
     def end_of_step_fresh(self, meta, leak_possible):
         """all reads of the state equal the reads of a fresh state holding the same independent values"""
         st = self.state
@@ -663,8 +721,8 @@ class SamplerOracle:
         try:
             with Watch(st) as w:
                 sampler.sample(st, temperature_inv=T_inv)
-        except Exception as e:  # noqa  (an exception is not a rejection: outside the property)
-            self.run.count("sampler_raised", f"{meta['sampler']}({'directed' if directed is not None else 'natural'}): {type(e).__name__}")
+        except Exception as e:  # noqa
+            self.raised(meta, directed, e)
             return
         finally:
             if directed is not None:
@@ -721,8 +779,8 @@ class SamplerOracle:
         try:
             with Watch(st) as w:
                 sampler.sample(st, temperature_inv=T_inv)
-        except Exception as e:  # noqa  (an exception is not a rejection: outside the property)
-            self.run.count("sampler_raised", f"{meta['sampler']}({'directed' if directed is not None else 'natural'}): {type(e).__name__}")
+        except Exception as e:  # noqa
+            self.raised(meta, directed, e)
             return
         finally:
             if directed is not None:
@@ -845,6 +903,8 @@ def real_samplers(run: Run, cfgs, reps):
             algo, state = c03.fitted(run, label, kind, kw, pop)
         except Exception as e:  # noqa
             run.count("shipped", f"{label}: fit failed {type(e).__name__}")
+            run.fail("sampler:fit-raises", f"a 3-iteration fit of the shipped kind '{kind}' ({label}) raised {type(e).__name__}: {str(e)[:300]} — the sampler "
+                     "steps cannot be observed", dict(config=label, kind=kind, options={k: v for k, v in kw.items()}, sampler_pop=pop))
             continue
         orc = SamplerOracle(run, label, algo, state)
         rng = run.rng("c02-real", label)
@@ -917,7 +977,11 @@ def main(run: Run):
     except Exception as e:  # noqa
         run.broken("directed-F2", f"{type(e).__name__}: {e}")
     try:
-        toy_steps(run, 260 if thorough else 70)
+        directed_shapes(run)
+    except Exception as e:  # noqa
+        run.broken("directed-shapes", f"{type(e).__name__}: {e}")
+    try:
+        toy_steps(run, 400 if thorough else 120)
     except Exception as e:  # noqa
         import traceback
         run.broken("toy-steps", f"{type(e).__name__}: {e}\n{traceback.format_exc()[-1500:]}")
@@ -927,7 +991,7 @@ def main(run: Run):
         keep = {"logistic-gibbs", "logistic-fastgibbs", "logistic-mh", "linear-gibbs", "joint-gibbs", "mixture-gibbs"}
         cfgs = [c for c in cfgs if c[0] in keep]
     try:
-        real_samplers(run, cfgs, reps=4 if thorough else 2)
+        real_samplers(run, cfgs, reps=6 if thorough else 3)
     except Exception as e:  # noqa
         import traceback
         run.broken("real-sampler-oracle", f"{type(e).__name__}: {e}\n{traceback.format_exc()[-1500:]}")
@@ -941,7 +1005,12 @@ def replay(run: Run, path: str):
     torch.set_num_threads(2)
     d = json.load(open(path))
     inp = d.get("input") or {}
-    if "graph" not in inp:
+    if "shape" in inp:
+        r = shape_case(inp["shape"], inp["mask"])
+        print(f"x -> y = 2x+1 -> z = sum(y), values of shape {inp['shape']}, revert(mask={inp['mask']}):", "as expected" if r is None else f"{r[1]}\n expected {r[2]}\n observed {r[3]}")
+        print("REPLAY", "FAILS" if r else "passes")
+        return 1 if r else 0
+    if not isinstance(inp.get("graph"), dict):
         print("replay: no toy history in this file (real-sampler finding or broken obligation); re-running the check")
         return main(run)
     G = T.ToyGraph.from_json(inp["graph"])
@@ -954,16 +1023,18 @@ def replay(run: Run, path: str):
         for f in sr.failures:
             print(f"TRACE LEFT after step {f['step']}: node {f['node']}: read {f['observed']} but the reference state gives {f['expected']}  [{f['sig']}]")
         r = run.vm_bad_indices("replay", HEADER, CASE_TYPE, [sr.s.coq_case()], "check_code")
-        print("model of the code agrees with the implementation on this history:", r == [])
-        bad = bool(sr.failures) or bool(r)
+        rw = run.vm_bad_indices("replay_w", HEADER, CASE_TYPE, [sr.s.coq_case()], "check_where")
+        print("implementation agrees with the model of the code as it is:", r == [], "| with the model of the repair (torch.where):", rw == [])
+        bad = bool(sr.failures) or (bool(r) and bool(rw))
     else:
         s = T.run_ops(G, inp["ops"], oracle=False)
         for op, out, ok in s.records:
             print(f"  {op}  ->  {out}")
         r = run.vm_bad_indices("replay", HEADER, CASE_TYPE, [s.coq_case()], "check_code")
-        print("model of the code agrees with the implementation on this history:", r == [])
+        rw = run.vm_bad_indices("replay_w", HEADER, CASE_TYPE, [s.coq_case()], "check_where")
+        print("implementation agrees with the model of the code as it is:", r == [], "| with the model of the repair (torch.where):", rw == [])
         last = s.records[-1][1]
-        bad = bool(r) or (inp.get("node") == "y" and last != ("ok", [0, 2]))
+        bad = (bool(r) and bool(rw)) or (inp.get("node") == "y" and last != ("ok", [0, 2]))
         if inp.get("node") == "y":
             print(f"read of y after the partial revert: {last}; the previous value of the rejected individual was 0")
     print("REPLAY", "FAILS" if bad else "passes")
